@@ -323,4 +323,92 @@ theorem addttlattr_appends (ttlType : Nat × Nat) (n : Nat) (as : List Tlv) :
     · exact ⟨_, rfl, by simp⟩
     · exact ⟨[], by simp, by simp⟩
 
+/-! ### the stages of `radsrv` between routing and `sendrq` (`World.chapComplete`, `World.outAttrs`) -/
+
+open Rsp.World in
+/-- the attribute AddTTL adds has the configured TTL type or is a Vendor-Specific attribute: every other type is left as it was -/
+theorem addttlattr_frame (ttlType : Nat × Nat) (n : Nat) (as : List Tlv) (U : UInt8 → Bool)
+    (hT : U (UInt8.ofNat ttlType.1) = false) (h26 : U 26 = false) :
+    (addttlattr ttlType n as).filter (fun a => U a.t) = as.filter (fun a => U a.t) := by
+  unfold addttlattr
+  simp only
+  split
+  · exact filter_append_untouched _ _ _ (by intro x hx; simp at hx; subst hx; exact hT)
+  · split
+    · rename_i a h
+      have : a.t = 26 := by
+        unfold makeVendorTlv at h
+        split at h
+        · cases h
+        · cases h; rfl
+      exact filter_append_untouched _ _ _ (by intro x hx; simp at hx; subst hx; rw [this]; exact h26)
+    · rfl
+
+open Rsp.World in
+/-- **C01 (CHAP).** a request with CHAP-Password and no CHAP-Challenge gains exactly one attribute, at the end: a CHAP-Challenge
+    holding the client's Request Authenticator; every other request is left as it is -/
+theorem chapComplete_spec (as : List Tlv) (auth : Bytes) :
+    (as.any (·.t = 3) = true ∧ as.any (·.t = 60) = false → chapComplete as auth = as ++ [{ t := 60, v := auth }]) ∧
+    (¬ (as.any (·.t = 3) = true ∧ as.any (·.t = 60) = false) → chapComplete as auth = as) := by
+  unfold chapComplete
+  constructor
+  · intro ⟨h3, h60⟩; simp [h3, h60]
+  · intro h
+    by_cases h3 : as.any (·.t = 3) = true <;> by_cases h60 : as.any (·.t = 60) = true <;> simp_all
+
+open Rsp.World in
+/-- **C01 (frame of the last stages).** Message-Authenticator placement and AddTTL leave every attribute that is not a
+    Message-Authenticator, not of the reserved type 0, not of the TTL type and not Vendor-Specific byte-identical, once, in order -/
+theorem outAttrs_frame (opts : Options) (sc : SrvConf) (code : UInt8) (ttlres : Int) (as6 : List Tlv) (U : UInt8 → Bool)
+    (h80 : U 80 = false) (h0 : U 0 = false) (hT : U (UInt8.ofNat opts.ttlType.1) = false) (h26 : U 26 = false) :
+    (outAttrs opts sc code ttlres as6).filter (fun a => U a.t) = as6.filter (fun a => U a.t) := by
+  unfold outAttrs
+  simp only
+  have h7 : (if code = 1 then ensureMsgAuthFront as6 else as6).filter (fun a => U a.t) = as6.filter (fun a => U a.t) := by
+    split
+    · exact ensureMsgAuthFront_frame as6 U h80 h0
+    · rfl
+  split
+  · rw [addttlattr_frame _ _ _ U hT h26]; exact h7
+  · exact h7
+
+open Rsp.World in
+/-- **C01 (Message-Authenticator).** what goes to the server for an Access-Request starts with a Message-Authenticator, and it is
+    the only one -/
+theorem outAttrs_msgauth_first (opts : Options) (sc : SrvConf) (ttlres : Int) (as6 : List Tlv) :
+    ∃ rest, outAttrs opts sc 1 ttlres as6 = { t := 80, v := zeros 16 } :: rest := by
+  unfold outAttrs ensureMsgAuthFront
+  simp only [if_true]
+  split
+  · obtain ⟨added, h, _⟩ := addttlattr_appends opts.ttlType (if sc.addttl ≠ 0 then sc.addttl else opts.addttl)
+      ({ t := 80, v := zeros 16 } :: Rewrite.rewriteRm (some [80]) none false as6)
+    exact ⟨_, by rw [h]; rfl⟩
+  · exact ⟨_, rfl⟩
+
+attribute [local irreducible] World.sendrq World.outAttrs World.chapComplete Rewrite.dorewrite World.loopPrevents in
+open Rsp.World in
+/-- **C01 (what is handed to `sendrq`).** for a request without User-Password (C03 has that stage), a server that loop prevention does
+    not exclude and whose rewriteOut (if any) succeeds: the message queued for the server is the client's message with a new
+    authenticator and with exactly these attributes - CHAP completion, the server's rewriteOut, then `outAttrs` -, queued by ONE call
+    of `sendrq` (C11: which places it in at most one slot) for the chosen server -/
+theorem forward_message (w : World) (o : Nat) (cc : CliConf) (m0 : Radmsg.Msg) (as3 : List Tlv) (ttlres : Int) (si : Nat) (s : Server)
+    (hs : getSrv w si = some s) (hl : loopPrevents w.opts cc s.conf = false)
+    (hp : (chapComplete as3 m0.auth).findIdx? (·.t = 2) = none)
+    (hok : s.conf.rwOut.isSome = true → (dorewrite w.rx s.conf.rwOut (chapComplete as3 m0.auth)).ok = true) :
+    radsrvForward w o cc m0 as3 ttlres si =
+      let wa := if m0.code = 4 then (w, zeros 16) else takeRnd w 16
+      let as6 := if s.conf.rwOut.isSome then (dorewrite wa.1.rx s.conf.rwOut (chapComplete as3 m0.auth)).attrs else chapComplete as3 m0.auth
+      sendrq (updRq wa.1 o fun r => { r with msg := some { m0 with attrs := outAttrs wa.1.opts s.conf m0.code ttlres as6, auth := wa.2 },
+                                               to := some si }) o := by
+  unfold radsrvForward
+  simp only [hs, Option.getD, hl, Bool.false_eq_true, if_false, hp]
+  have hrx : (if m0.code = 4 then (w, zeros 16) else takeRnd w 16).1.rx = w.rx := by
+    split
+    · rfl
+    · unfold takeRnd; split <;> rfl
+  rw [hrx]
+  have h1 : ¬ (s.conf.rwOut.isSome = true ∧ (!(dorewrite w.rx s.conf.rwOut (chapComplete as3 m0.auth)).ok) = true) := by
+    intro ⟨a, b⟩; rw [hok a] at b; exact Bool.noConfusion b
+  simp only [h1, if_false]
+
 end Rsp.Props.C01
